@@ -653,7 +653,20 @@ func c04Catalogue() *core.Space {
 	type D5 struct{ Limits dLimits }
 	type D6 struct{ Weights dWeights }
 	type D7 struct{ Limits dGoodLimits }
+	type PM1 struct {
+		P *map[string]int `validate:"nonzero"`
+	}
+	type PM2 struct {
+		P **map[string]int `validate:"nonzero"`
+	}
+	type PM3 struct {
+		P *[]int `validate:"nonzero"`
+	}
 	cases := []c04CatCase{
+		{"nil pointer to a map with nonzero: empty object", func() interface{} { return &PM1{} }, M{"p": M{}}, true},
+		{"nil pointer to a map with nonzero: entries present", func() interface{} { return &PM1{} }, M{"p": M{"a": 1}}, false},
+		{"nil pointer to a pointer to a map with nonzero: empty object", func() interface{} { return &PM2{} }, M{"p": M{}}, true},
+		{"nil pointer to a list with nonzero: empty list", func() interface{} { return &PM3{} }, M{"p": L{}}, true},
 		{"vInt ok", func() interface{} { return &W1{} }, M{"x": 1}, false},
 		{"vInt rejected from config", func() interface{} { return &W1{} }, M{"x": 13}, true},
 		{"vInt rejected from default", func() interface{} { return &W1{X: 13} }, M{"y": 1}, true},
